@@ -3,8 +3,8 @@
 
   Safety (prefix / EOF honesty / errors surface) is proved for all schedules of the two-endpoint
   system of Model/Pair.lean, whose wire may drop, delay, reorder *and duplicate* arbitrarily.
-  Liveness is false on the faithful model: the full statement is `C06_Live_Statement`, refuted by seven
-  witnesses (F-C06-1 … -7); six of them complete on the model with their repair flag set, F-C06-4 (no
+  Liveness is false on the faithful model: the full statement is `C06_Live_Statement`, refuted by eight
+  witnesses (F-C06-1 … -8); six of them complete on the model with their repair flag set, F-C06-4 (no
   zero-window probe) has no small repair.
 -/
 import TvNetTcp.Proofs.PairStep
@@ -360,8 +360,14 @@ def fixed_lostLastAck : List Op :=
     .deliver 13, .egress, .egress, .egress, .egress, .egress, .egress, .egress, .egress, .egress,
     .egress, .read 1 8]
 
-/-- The code with the five repairs that have been committed to /repo (2e36826, 721efe6, bf8d44c,
-    28e9486, d6a3586). -/
+/-- The code as committed in /repo after all repairs of this area (seven flags; `fixOrphanTimeout`
+    was judged unsafe by the integrator and stays off). -/
+def cfgCommitted : Cfg :=
+  { fixReack := true, fixWinUpdate := true, fixHsReset := true, fixRstAfterClose := true, fixReapOrphan := true,
+    fixQuietClose := true, fixSynWindow := true }
+
+/-- The code with the five repairs that have been committed to /repo (080947f, 018714e, 2fda244,
+    d10c607, b0e0c79). -/
 def cfgRepaired : Cfg :=
   { fixReack := true, fixWinUpdate := true, fixHsReset := true, fixRstAfterClose := true, fixReapOrphan := true }
 
@@ -377,12 +383,12 @@ theorem witness_F_C06_6 : ¬ C06_Live_Statement cfgRepaired := by
   exact absurd (h witness_lostLastAck) (by decide)
 
 set_option maxRecDepth 100000 in
-/-- With `fixQuietClose` (abort in `LastAck` / `Closing` enters `Closed` silently and keeps the
-    receive buffer, RFC 793) the same scenario ends with the 3 bytes read. -/
+/-- On the committed tree (`cfgCommitted`; the repair is `fixQuietClose`: an abort in `LastAck` /
+    `Closing` enters `Closed` silently and keeps the receive buffer, RFC 793) the same scenario ends
+    with the 3 bytes read. -/
 theorem fixed_F_C06_6 :
-    Spec.c06Liveness { cfgRepaired with fixQuietClose := true }
-        (Spec.modelHistory { cfgRepaired with fixQuietClose := true } 2 fixed_lostLastAck) = none ∧
-    ((Sys.init { cfgRepaired with fixQuietClose := true } 2).run fixed_lostLastAck).2.getLast? = some [Obs.okBytes [1, 2, 3]] := by
+    Spec.c06Liveness cfgCommitted (Spec.modelHistory cfgCommitted 2 fixed_lostLastAck) = none ∧
+    ((Sys.init cfgCommitted 2).run fixed_lostLastAck).2.getLast? = some [Obs.okBytes [1, 2, 3]] := by
   refine ⟨by decide, by decide⟩
 
 def witness_overshoot : List Op :=
@@ -414,12 +420,45 @@ theorem witness_F_C06_7 : ¬ C06_Live_Statement cfgSmallBudget := by
   exact absurd (h witness_overshoot) (by decide)
 
 set_option maxRecDepth 100000 in
-/-- With `fixSynWindow` (SYN / SYN-ACK advertise `advertised_window(recv_buf_cap, 0)`) the same
-    scenario completes. -/
+/-- On the committed tree (the repair is `fixSynWindow`: SYN / SYN-ACK advertise
+    `advertised_window(recv_buf_cap, 0)`) the same scenario completes. -/
 theorem fixed_F_C06_7 :
-    Spec.c06Liveness { cfgSmallBudget with fixSynWindow := true }
-      (Spec.modelHistory { cfgSmallBudget with fixSynWindow := true } 2 fixed_overshoot) = none := by
+    Spec.c06Liveness { cfgCommitted with recvCap := 4, sendCap := 16, retxMax := 2 }
+      (Spec.modelHistory { cfgCommitted with recvCap := 4, sendCap := 16, retxMax := 2 } 2 fixed_overshoot) = none := by
   decide
+
+def witness_ackAboveNxt : List Op :=
+    [.listen 0 0 ⟨Ip.any false, 9000⟩, .connect 1 0 0 ⟨Ip.host 0 false, 9000⟩, .cpoll 0 0, .accept 0 1,
+    .egress, .deliver 0, .deliver 1, .cpoll 0 0, .accept 0 1, .egress, .deliver 2, .deliver 3,
+    .cpoll 0 0, .write 0 [120], .shutdown 0, .read 0 1, .accept 0 1, .egress, .deliver 4, .deliver 5,
+    .deliver 6, .deliver 7, .deliver 8, .deliver 9, .read 0 1, .accept 0 1, .write 1 [188, 219, 250,
+    30, 61, 92, 123, 154, 185, 216, 247, 27, 58, 89, 120, 151, 182, 213, 244, 24, 55, 86, 117, 148,
+    179, 210, 241, 21, 52, 83, 114, 145, 176, 207, 238, 18, 49, 80, 111, 142], .shutdown 1, .read 1 64,
+    .read 1 64, .egress, .deliver 13, .deliver 14, .deliver 15, .read 0 1, .egress, .deliver 11,
+    .deliver 18, .deliver 19, .deliver 16, .deliver 20, .deliver 17, .deliver 12, .deliver 10,
+    .read 0 1, .egress, .deliver 24, .deliver 21, .deliver 25, .deliver 26, .deliver 23, .deliver 22,
+    .read 0 1, .egress, .deliver 27, .read 0 1, .egress, .deliver 28, .deliver 29, .read 0 1, .egress,
+    .deliver 30, .deliver 31, .read 0 1, .egress, .deliver 32, .deliver 33, .deliver 34, .read 0 1,
+    .egress, .deliver 36, .read 0 1, .egress, .deliver 35, .deliver 37, .read 0 1, .egress,
+    .deliver 39, .deliver 40, .read 0 1, .egress, .deliver 38, .deliver 41, .read 0 1, .egress,
+    .deliver 44, .deliver 42, .deliver 43, .read 0 1, .egress, .deliver 45, .deliver 46, .read 0 1,
+    .egress, .deliver 47, .read 0 1, .egress, .deliver 48, .deliver 49, .deliver 50, .read 0 1,
+    .egress, .deliver 51, .deliver 52, .deliver 53, .read 0 1, .egress, .deliver 54, .deliver 55,
+    .read 0 1, .egress, .deliver 56, .deliver 57, .read 0 1, .egress, .deliver 58, .read 0 1, .egress,
+    .read 0 1, .egress, .read 0 1, .egress, .read 0 1, .egress, .read 0 1, .egress, .stat]
+
+set_option maxRecDepth 100000 in
+/-- F-C06-8: **no loss**, `retx_threshold = 1`, `recv_buf_cap = 8` (history found by the thorough
+    tier on the committed tree). The go-back-N rewind sets `snd_nxt = snd_una` and forgets how far the
+    sender had got; when the rewound retransmission is shorter than what was sent before (the window
+    has shrunk meanwhile), the ACK for the earlier, longer flight has `acked > in_flight` and is thrown
+    away — again and again, because the receiver keeps answering with that same ACK — until the
+    budget is spent: the server aborts, the client's reader is parked with bytes outstanding. Real
+    TCP keeps SND.MAX and accepts ACKs up to it. -/
+theorem witness_F_C06_8 :
+    ¬ C06_Live_Statement { cfgCommitted with sendCap := 64, recvCap := 8, backlog := 4, retxThreshold := 1 } := by
+  intro h
+  exact absurd (h witness_ackAboveNxt) (by decide)
 
 set_option maxRecDepth 100000 in
 /-- With the repairs switched on the same scenarios (same application calls, same loss; packet ids
